@@ -67,3 +67,6 @@ emit('b07-counting-loop-with-explicit-counter', [('\tfor range session {\n\t\tse
 emit('b08-wait-extracted-into-a-helper', [
     ('\t\t\tselect {\n\t\t\tcase <-raceCtx.Done():\n\t\t\t\treturn\n\t\t\tcase <-timer.C:\n\t\t\t}\n', '\t\t\tif !waitTurn(raceCtx, timer) {\n\t\t\t\treturn\n\t\t\t}\n'),
     ('// groupRace shuffles logs within the group', '// waitTurn reports whether the timer fired before the context ended.\nfunc waitTurn(ctx context.Context, timer *time.Timer) bool {\n\tselect {\n\tcase <-ctx.Done():\n\t\treturn false\n\tcase <-timer.C:\n\t\treturn true\n\t}\n}\n\n// groupRace shuffles logs within the group')])
+emit('b09-worker-literal-bound-to-a-local', [
+    ('\t\tgo func(i int, logURL string) {\n\t\t\tdefer countCall()\n', '\t\tworker := func(i int, logURL string) {\n\t\t\tdefer countCall()\n'),
+    ('\t\t}(i, logURL)\n\t}\n\t// Wait until either all logs', '\t\t}\n\t\tgo worker(i, logURL)\n\t}\n\t// Wait until either all logs')])
